@@ -2,10 +2,11 @@
 (* C07, mixed sequences: behaviours of a small abstract machine over the stateful part of the library
    (collections behind handles, release, variables, scope stack, errors, aliases): a state records the
    kinds of the live handles; handle-producing commands feed later ones (PREV = the previous output).
-   Every initial state (an id) grows one behaviour of length D by RandomElement choices (seeded by
-   tlc -seed); each completed behaviour is printed and replayed on one persistent context in the worker. *)
-EXTENDS Naturals, Sequences, TLC, FiniteSets, Json
-CONSTANTS D, NSeq
+   Every initial state (an id) grows one behaviour of length D; the choices are a pseudo-random but fully determined
+   function of (Seed, id, position) - TLC's RandomElement is not reproducible from run to run, and a check must be -
+   each completed behaviour is printed and replayed on one persistent context in the worker. *)
+EXTENDS Naturals, Sequences, TLC, FiniteSets, Json, SequencesExt
+CONSTANTS D, NSeq, Seed
 VARIABLES seq, id
 Cmds == {"array", "map", "set_new", "range", "array_push", "array_pop", "array_get", "array_set", "array_remove", "array_clear", "array_concat", "array_join",
          "map_put", "map_get", "map_remove", "map_keys", "map_to_properties", "map_load_properties", "set_put", "set_remove", "set_to_array", "set_from_array",
@@ -14,8 +15,17 @@ Cmds == {"array", "map", "set_new", "range", "array_push", "array_pop", "array_g
          "remove_command", "substring", "for", "end", "if", "else", "return", "goto", "eval", "not", "test_file", "temp_dir", "ls", "cat", "chmod", "env_to_map"}
 Pool == {"PREV", "L", "M", "S", "Y", "R", "B", "CL", "CM", "E", "0", "1", "-1", "5", "W", "MB", "SP", "QT", "COPY", "-r", "COLL", "VAR", "NOVAR", "F", "D", "JSON", "IN", "LF"}
 Args == {<<>>} \cup {<<x>> : x \in Pool} \cup {<<x, y>> : x \in Pool, y \in Pool} \cup {<<x, y, z>> : x \in {"PREV", "L", "M", "CL", "COLL", "COPY"}, y \in Pool, z \in {"E", "0", "W", "PREV"}}
+CmdSeq == SetToSeq(Cmds)
+ArgSeq == SetToSeq(Args)
+\* a small deterministic scrambler (all intermediate values stay below 2^31)
+P == 32749
+Mix(a, b, c) == LET x0 == (a * 31 + b * 17 + c * 13 + Seed * 7 + 11) % P
+                    x1 == (x0 * x0 + 12345) % P
+                    x2 == (x1 * x1 + a + 3 * b) % P
+                IN (x2 * 7 + x1) % P
+Pick(sq, a, b, c) == sq[1 + (Mix(a, b, c) % Len(sq))]
 Init == seq = <<>> /\ id \in 1..NSeq
-Next == Len(seq) < D /\ seq' = Append(seq, [cmd |-> RandomElement(Cmds), args |-> RandomElement(Args)]) /\ UNCHANGED id
+Next == Len(seq) < D /\ seq' = Append(seq, [cmd |-> Pick(CmdSeq, id, Len(seq), 1), args |-> Pick(ArgSeq, id, Len(seq), 2)]) /\ UNCHANGED id
 Spec == Init /\ [][Next]_<<seq, id>>
 Emit == Len(seq) = D => PrintT(<<"SEQ", ToJson(seq)>>)
 =============================================================================
